@@ -81,6 +81,10 @@ ATTR_POOL_FIELD = ["serde(default)", "serde(rename = \"fld\")", "serde(skip_seri
 
 def rand_ty(rng, gens, depth=0, p_gen=0.45):
     r = rng.random()
+    if gens and rng.random() < 0.06:
+        # a *concrete* type written with a path whose last segment is spelled like a type parameter: not a use of the parameter
+        g = rng.choice(gens)
+        return rng.choice([gen.path("wire", g), P("Vec", gen.path("crate", "wire", g))])
     if gens and r < p_gen:
         g = rng.choice(gens)
         k = rng.random()
@@ -170,6 +174,9 @@ def gen_l1_contract(rng, idx):
             continue
         used_fn.add(nm)
         m = gen.simple_method(nm, k, gen_l1_args(rng, gens))
+        if k != "query" and gens and rng.random() < 0.12:
+            # `resp=` is accepted on every kind and means something for queries only: it is no use of a parameter elsewhere
+            m["msg"]["resp"] = rng.choice(gens)
         if k == "query":
             r = rng.random()
             rt = rand_ty(rng, gens, depth=1, p_gen=0.5)
